@@ -79,7 +79,8 @@ Fixpoint map2_res {A B C} (f : A -> B -> res C) (l : list A) (m : list B) : res 
 
 Definition shape_pv (sh : shape) : pyv := VTuple (map VInt sh).
 
-Definition normalize_index_pv (ix : list pyv) (sh : shape) : res (list pyv) :=
+(* replace_ellipsis, the n_sliced_dims count, the padding with full slices, the too-many test *)
+Definition expand_pv (ix : list pyv) (sh : shape) : res (list pyv) :=
   r <- g_replace_ellipsis (VInt (Z.of_nat (length sh))) (VTuple ix) ;;
   match r with
   | VTuple ix1 =>
@@ -89,16 +90,21 @@ Definition normalize_index_pv (ix : list pyv) (sh : shape) : res (list pyv) :=
     | VInt p =>
       let ix2 := ix1 ++ repeat full_pv (Z.to_nat p) in
       tm <- s_too_many (VTuple ix2) (shape_pv sh) ;;
-      if cond tm then Raise IndexError
-      else
-        ns <- none_shape ix2 sh ;;
-        _ <- check_all ix2 ns ;;
-        ix3 <- map_res sanitize ix2 ;;
-        map2_res norm_entry ix3 ns
+      if cond tm then Raise IndexError else Ok ix2
     | _ => Raise TypeError
     end
   | _ => Raise TypeError
   end.
+
+(* none_shape, check_index on every entry, then sanitize / replace_none / posify / clip on every entry *)
+Definition entries_pv (ix2 : list pyv) (sh : shape) : res (list pyv) :=
+  ns <- none_shape ix2 sh ;;
+  _ <- check_all ix2 ns ;;
+  ix3 <- map_res sanitize ix2 ;;
+  map2_res norm_entry ix3 ns.
+
+Definition normalize_index_pv (ix : list pyv) (sh : shape) : res (list pyv) :=
+  ix2 <- expand_pv ix sh ;; entries_pv ix2 sh.
 
 (* the normalised index as getitem sees it *)
 Inductive nentry :=
